@@ -246,6 +246,12 @@ class Fn:
                     if v==pat: nm=k
                 self.mod.rx_consts[nm]=pat
                 return lib("re_%s_ast"%f.attr,"RX_"+nm,A(1))
+            if (f.attr=="hexdigest" and not e.args and isinstance(f.value,ast.Call) and isinstance(f.value.func,ast.Name) and f.value.func.id=="md5"
+                    and len(f.value.args)==1 and isinstance(f.value.args[0],ast.Call) and isinstance(f.value.args[0].func,ast.Attribute)
+                    and f.value.args[0].func.attr=="encode" and not f.value.args[0].args):
+                self.mod.need_hash=True
+                x=self.ex(f.value.args[0].func.value,binds)
+                return lib("py_md5_hexdigest",x)
             if f.attr=="format":
                 o=self.ex(f.value,binds); args="(VList [%s])"%";".join(self.ex(a,binds) for a in e.args)
                 kw="(VDict [%s])"%";".join("(S_ %s, %s)"%(cq(k.arg),self.ex(k.value,binds)) for k in e.keywords)
@@ -362,6 +368,7 @@ def translate_module(path, pymod, wanted=None):
         for nm,pat in mod.rx_consts.items():
             t,_,_=E.pattern(pat,0); rx.append("Definition RX_%s : re := %s."%(nm,t))
         hdr_extra += ["Require Import Rx PyRe.", E.set_defs()] + rx
+    if getattr(mod,"need_hash",False): hdr_extra.append("Require Import PyHash.")
     out[out.index("")+0:out.index("")+0]=hdr_extra
     for k,txt in stubs.items():
         out.append(txt); out.append("")
